@@ -94,6 +94,7 @@ fn tiny_par_scenario(seed: u64, idx: u64, faulty: bool) -> Scenario {
         label: format!("mini#{idx}"),
         short_reads: 0,
         bare_eof: idx % 2 == 1,
+        empty_fill_every: 0,
     }
 }
 
